@@ -290,6 +290,43 @@ func insertionMutations(doc []byte, prefix string, extra func(class string) []me
 	return out
 }
 
+// siblingSwaps replaces the value of a member by the value the same member has in each sibling object of the same
+// path class (another list entry's media type, digest, size, name ...): a value that is valid, only in the wrong place.
+func siblingSwaps(doc []byte, prefix string) []mut {
+	nodes := scanJSON(doc)
+	type kv struct{ class, key string }
+	values := map[kv][]string{}
+	for _, n := range nodes {
+		if n.Parent >= 0 && n.KeyStart >= 0 {
+			k := kv{nodes[n.Parent].Class, n.Key}
+			v := string(doc[n.Start:n.End])
+			dup := false
+			for _, e := range values[k] {
+				if e == v {
+					dup = true
+				}
+			}
+			if !dup {
+				values[k] = append(values[k], v)
+			}
+		}
+	}
+	var out []mut
+	for _, n := range nodes {
+		if n.Parent < 0 || n.KeyStart < 0 {
+			continue
+		}
+		orig := string(doc[n.Start:n.End])
+		for i, v := range values[kv{nodes[n.Parent].Class, n.Key}] {
+			if v == orig || len(v) > 4096 {
+				continue
+			}
+			out = append(out, mut{Label: fmt.Sprintf("%s%s=value-of-sibling#%d", prefix, n.Path, i), Class: prefix + n.Class, Op: "swap", Bytes: splice(doc, n.Start, n.End, v)})
+		}
+	}
+	return out
+}
+
 // truncations returns doc[:L] for L = 0, step, 2*step ... < len(doc).
 func truncations(doc []byte, prefix string, step int) []mut {
 	var out []mut
